@@ -137,18 +137,36 @@ func (s *sub) run(ctx context.Context, st state.State, log *hx.Log) {
 }
 
 func scenario(cfg ringCfg, flavours []wx.Flavour, writes int, bounds []int) explore.Scenario {
+	return scenarioP(cfg, flavours, writes, bounds, false)
+}
+
+// scenarioP with preloaded: the backing store already holds two resources (ids p, q) when the state is built, so
+// the first operation of each actor - the subscriber's Watch, the writer's first write - races for the initial load.
+func scenarioP(cfg ringCfg, flavours []wx.Flavour, writes int, bounds []int, preloaded bool) explore.Scenario {
 	name := fmt.Sprintf("%v/w%d", cfg, writes)
 	for _, f := range flavours {
 		name += "/" + f.String()
 	}
+	desc := fmt.Sprintf("one writer running %d scripted writes over ids a,b (create/update/destroy/re-create + a foreign kind) against %d subscriber(s) %v; history initial capacity %d, max %d, gap %d", writes, len(flavours), flavours, cfg.initial, cfg.max, cfg.gap)
+	if preloaded {
+		name += "/preloaded-store"
+		desc += "; the backing store holds two resources before the state is built, loaded by whichever operation comes first"
+	}
 	return explore.Scenario{
 		Name:   name,
-		Desc:   fmt.Sprintf("one writer running %d scripted writes over ids a,b (create/update/destroy/re-create + a foreign kind) against %d subscriber(s) %v; history initial capacity %d, max %d, gap %d", writes, len(flavours), flavours, cfg.initial, cfg.max, cfg.gap),
+		Desc:   desc,
 		Bounds: bounds,
 		HB:     true,
 		Body: func(x *explore.X) {
 			ctx, cancel := vctx.WithCancel(context.Background())
 			log := &hx.Log{}
+			if preloaded {
+				for _, id := range []string{"p", "q"} {
+					r := conformance.NewIntResource(hx.NS, id, 5)
+					r.Metadata().SetVersion(r.Metadata().Version().Next())
+					log.Preload = append(log.Preload, r)
+				}
+			}
 			st := state.WrapCore(hx.NewInmem(log, inmem.WithHistoryInitialCapacity(cfg.initial), inmem.WithHistoryMaxCapacity(cfg.max), inmem.WithHistoryGap(cfg.gap)))
 			subs := make([]*sub, len(flavours))
 			for i, f := range flavours {
@@ -209,13 +227,15 @@ func scenario(cfg ringCfg, flavours []wx.Flavour, writes int, bounds []int) expl
 						}
 					}
 					maxLag := 0
-					for k := 0; k < len(commits) && k < len(lagAt); k++ {
+					// the preloaded resources are the first commits and precede every write of the script
+					off := len(log.Preload)
+					for k := off; k < len(commits) && k-off < len(lagAt); k++ {
 						recvPos := start
 						if s.f == wx.ByID {
-							if r := lagAt[k][j]; r >= 2 && r-2 < len(idPos) {
+							if r := lagAt[k-off][j]; r >= 2 && r-2 < len(idPos) {
 								recvPos = idPos[r-2]
 							}
-						} else if r := lagAt[k][j] - boot; r > 0 {
+						} else if r := lagAt[k-off][j] - boot; r > 0 {
 							recvPos = start + r
 						}
 						if lag := (k + 1) - recvPos; lag > maxLag {
@@ -260,6 +280,14 @@ func build(tier string) []explore.Scenario {
 	}
 	two := [][]wx.Flavour{{wx.Kind, wx.ByID}, {wx.KindAggregated, wx.KindBootstrap}, {wx.Kind, wx.Kind}}
 	if tier == "thorough" {
+		for _, c := range small[:2] {
+			for f := wx.Flavour(0); f < wx.NFlavours; f++ {
+				out = append(out, scenarioP(c, []wx.Flavour{f}, 2, []int{0, 1, 2, 3, -1}, true))
+			}
+			for _, fs := range two {
+				out = append(out, scenarioP(c, fs, 1, []int{0, 1, 2}, true))
+			}
+		}
 		add(cfgs, 9, []int{0})
 		add(cfgs, 6, []int{0, 1})
 		add(small, 4, []int{0, 1, 2})
@@ -270,6 +298,12 @@ func build(tier string) []explore.Scenario {
 			}
 		}
 		return out
+	}
+	for _, c := range small[:2] {
+		for f := wx.Flavour(0); f < wx.NFlavours; f++ {
+			out = append(out, scenarioP(c, []wx.Flavour{f}, 2, []int{0, 1, 2}, true))
+		}
+		out = append(out, scenarioP(c, two[1], 1, []int{0, 1}, true))
 	}
 	add(cfgs, 6, []int{0})
 	add(small, 4, []int{0, 1})
